@@ -132,7 +132,16 @@ def big_annotated_leaves():
                        [0, -1j, 1 - 1j, 6, 1 + 1j], [2, 0, -1j, 1 - 1j, 6]], "c128")
     L["Hc44"] = dense([[3, 1j, 1 + 1j, 0], [-1j, 3, 2j, 1 - 1j], [1 - 1j, -2j, 4, 1j], [0, 1 + 1j, -1j, 3]], "c64")
     L["Sy44"] = dense([[2, 1, 0, -1], [1, 3, 2, 0], [0, 2, 1, 1], [-1, 0, 1, 2]], "f64")
+    L["Hp44"] = dense([[7, 1j, 1 + 1j, 0], [-1j, 7, 2j, 1 - 1j], [1 - 1j, -2j, 8, 1j], [0, 1 + 1j, -1j, 7]], "c128")
     return L
+
+
+def declared_leaves():
+    """Declaration wrappers around the larger self-adjoint leaves (TLC re-verifies each declaration: MC_Ops!AnnotTrue)."""
+    B = big_annotated_leaves()
+    return [node("Annot", {"ann": a}, [B[n]]) for n, a in
+            (("Hc55", "SelfAdjoint"), ("Hc44", "SelfAdjoint"), ("Sy44", "SelfAdjoint"), ("Hp44", "PSD"),
+             ("Hp44", "SelfAdjoint"))]
 
 
 def offset_forms():
@@ -145,6 +154,8 @@ def offset_forms():
         {"t": "slice", "v": [2, 3, None]},
         {"t": "slice", "v": [3, 4, None]},
         {"t": "slice", "v": [1, 3, None]},
+        {"t": "slice", "v": [None, None, None]},
+        {"t": "slice", "v": [None, None, -1]},       # the same index set as [:], walked backwards
         {"t": "array", "v": [1, 0]},
         {"t": "array", "v": [0, 1]},
         {"t": "array", "v": [2, 3]},
